@@ -202,9 +202,33 @@ def run(res, tier, seed):
     with X.Sentinel(seed) as sent:
         outside_before = sent.snapshot()
         groups = build(rng, tier, sent)
+        # answers of a megabyte and more whose delivery fails (first write refused, flush refused) or succeeds: whatever a server keeps
+        # about a large transfer while it runs must be gone afterwards.  Implementation only (the model of a 1.2 MiB body is slow);
+        # judged by the tree manifest and the sentinel directories.
+        big_tree = S.gen_tree(rng, small=True); big_tree.no_model = True
+        big_tree.file(big_tree.cwd + b'/big/large.bin', bytes((j * 131 + (j >> 8) * 29 + 17) & 0xff for j in range(1200003)))
+        big_tree.file(big_tree.cwd + b'/big/mib.bin', b'm' * 1048576).file(big_tree.cwd + b'/big/below.bin', b'b' * 1048575)
+        big_cases = []
+        for name in ('large.bin', 'mib.bin', 'below.bin'):
+            for entry in ('proc', 'preq'):
+                # completed transfers first, refused deliveries last: what a completed transfer cleans up must not hide what a failed one left
+                for ws, fl in (('all', 'ok'), ('c:65536', 'ok'), ('e:1', 'ok'), ('all', 'e'), ('e:0', 'ok')):
+                    big_cases.append(K.mk(big_tree, 'GET', '/big/' + name, [], entry=entry, ws=ws, flush=fl, kind='big-transfer'))
+                big_cases.append(K.mk(big_tree, 'GET', '/big/' + name, [('Range', 'bytes=0-1100000')], entry=entry, ws='e:0', kind='big-transfer'))
+                big_cases.append(K.mk(big_tree, 'HEAD', '/big/' + name, [], entry=entry, ws='e:0', kind='big-transfer'))
+        # stable order: every refused delivery after every completed one, and the batch ends once with a refused delivery on each entry
+        # point (a transfer that ends properly on one entry point may clean up what a refused one on the other left behind)
+        big_cases.sort(key=lambda c: (c.ws == 'e:0' or c.flush == 'e'))
+        big_tail = [c for c in big_cases if c.ws == 'e:0' and c.method == 'GET' and not c.headers]
+        for ent in ('proc', 'preq'):
+            # one harness process each (the marker of a transfer may be named after the process): the last request of the batch is a
+            # refused delivery through `ent`
+            tail = [c for c in big_tail if c.entry == ent][:1]
+            groups.append((None, [(big_tree, [c for c in big_cases if c not in tail] + tail)]))
         out = [None] * len(groups)
         def work(i):
-            out[i] = K.run_batches(groups[i][1], with_model=WITH_MODEL, env=groups[i][0])
+            wm = WITH_MODEL and not getattr(groups[i][1][0][0], 'no_model', False)
+            out[i] = K.run_batches(groups[i][1], with_model=wm, env=groups[i][0])
         ts = [threading.Thread(target=work, args=(i,)) for i in range(len(groups))]
         for t in ts: t.start()
         for t in ts: t.join()
